@@ -267,7 +267,12 @@ func c11Scenarios() []scenario {
 	{
 		b := c12Bases()[1] // allot-cap: portion $p, monetary $cap
 		out = append(out, scenario{Name: "two-malformed-vars", Text: gen.Text(b.Mk()), Vars: map[string]string{"p": "abc", "cap": "USD x"}, Bal: bal, Meta: meta})
-		b6 := c12Bases()[5]
+		var b6 c12Base
+		for _, bb := range c12Bases() {
+			if bb.Name == "meta-six" {
+				b6 = bb
+			}
+		}
 		if b6.Name == "meta-six" {
 			out = append(out, scenario{Name: "three-malformed-vars", Text: gen.Text(b6.Mk()), Vars: map[string]string{"n": "x", "amt": "USD", "p": "7/0", "s": "k", "src": "", "as": "USD"}, Bal: bal, Meta: meta})
 		}
